@@ -434,6 +434,40 @@ def cyclic_types(rng):
     return a.assemble(), feats
 
 
+def error_storm(rng):
+    """Many forked threads, each of which dies on a failing opcode after a few instructions (stack underflow, a JUMP to
+    a bad target, an unassigned opcode), while the forking thread carries on. Returns (code, feats)."""
+    a = evm.Asm()
+    k = rng.randint(4, 24)
+    feats = {"error-storm"}
+    for i in range(k):
+        a.emit(rng.choice(["CALLVALUE", [4 + 32 * (i % 4), "CALLDATALOAD"], "CALLDATASIZE"]))
+        a.jumpi("E%d" % i)
+        for _ in range(rng.randint(0, 3)):
+            a.emit(rng.randint(0, 255), "POP")
+    a.emit(rng.choice([["STOP"], ["ADD"], [0xffff, "JUMP"]]))
+    for i in range(k):
+        a.label("E%d" % i)
+        for _ in range(rng.randint(0, 4)):
+            a.emit(rng.randint(0, 255), rng.choice(["POP", "ISZERO", ["DUP1", "ADD"]]))
+            if rng.random() < 0.5:
+                a.emit("POP")
+        how = rng.choice(["underflow", "underflow", "bad-jump", "oob-jump", "unassigned", "pushdata-jump"])
+        feats.add("dies:" + how)
+        if how == "underflow":
+            a.emit(rng.choice(["POP", "POP", "POP"]), rng.choice(["ADD", "MSTORE", "SSTORE", "SWAP1", "DUP3", "LOG1", "SHA3"]))
+        elif how == "bad-jump":
+            a.emit(1, "JUMP")
+        elif how == "oob-jump":
+            a.emit(0xfff0 + i, "JUMP")
+        elif how == "pushdata-jump":
+            a.push_expr(lambda L, n="E%d" % i: L[n] + 2, 2)
+            a.emit("JUMP")
+        else:
+            a.emit(bytes([rng.choice(UNASSIGNED)]))
+    return a.assemble(), feats
+
+
 def full_stack(rng):
     """The stack is filled to within a few items of its 1024 limit (by pushes, DUPs or a mix), then a short run of
     instructions that grow, keep or shrink it is executed at the limit. Returns (code, feats)."""
